@@ -26,12 +26,12 @@ CHECKS = {
  "C16": dict(
    technique="runtime monitor: longest-prefix reference oracle over exhaustively enumerated symbol tables, registration orders, inputs and repeated reads on the real SymbolRootNode",
    text="Real symbol tables are built for every set of up to 3 (quick) / 4 (thorough) of the 39 strings of length 1..3 over {<,=,>} (and over {a, ш, €} for children above U+00FF) in every or seeded registration orders with distinct token types; every input of length 1..4 is read on each table twice (second pass in reverse order, so every read happens after other reads) and the monitor compares text, type and number of consumed characters with a direct longest-prefix search. Random larger tables, tables built incrementally (inputs read between registrations, the symbol about to be registered last before and first after), and the built-in tokenizers' tables (before/after adding symbols) complete it.",
-   note="Symbols containing U+0000, duplicate registrations with different types and token type 0 are don't-care.",
+   note="Symbols containing U+0000, U+FFFF or astral characters (outside the character maps' domain) and duplicate registrations with different types are don't-care. Token type 0 is asserted since round 4 (defect 31, repaired).",
    ref="DESIGN.md §3 C16"),
  "C17": dict(
    technique="runtime monitor: newest-first interval list model with pointer identity, compared after every operation of exhaustively enumerated registration histories",
    text="Every history of length <= 3 over 88 operations (28 endpoint ranges x 3 references, default interval x 3, clear) is applied to a real CharReferenceMap and probed at 21 characters after every operation against a list model; 40 k (quick) / 5 M (thorough) random histories up to length 30 follow; a third sub-check observes the tokenizer-level consequence (configured state returned, disabled word range stops a word, non-Latin letters reach the word state) on real tokenizers.",
-   note="Ranges ending at U+FFFF are clamped by the implementation and not asserted.",
+   note="Ranges that end beyond U+FFFE are clipped by the implementation: a probe beyond U+FFFE is judged only when no range of the history reaches it (it must find nothing).",
    ref="DESIGN.md §3 C17"),
  "C12": dict(
    technique="runtime monitor: token positions compared with an independent line/column model at offsets derived from the option-free stream, across all 128 option sets",
@@ -91,7 +91,7 @@ CHECKS = {
  "C05": dict(
    technique="runtime monitor: fresh-instance differential over all ordered pairs and random sequences of inputs on reused instances; has-next interleaving patterns",
    text="Twelve components (four tokenizers option-free and with option sets, expression parser and calculator, mustache parser and template) are fed every ordered pair of their input pools (77 tokenizer inputs with every multi-character symbol, token class, unterminated literal, push-back position; 48 expressions; 30 templates) and seeded longer sequences with aborted iterations on one reused instance; after every input the observable product must equal that of a freshly constructed instance. All 39 patterns of 0-2 HasNextToken calls before NextToken are compared with a plain loop; further steps re-use the same reset scanner object, hand inputs over through the token API, and evaluate one compiled expression with alternating function collections.",
-   note="The reference is the same code in a fresh instance, which is what the statement defines. Default variable collections accumulate by design and are not compared; evaluation uses an explicit collection.",
+   note="The reference is the same code in a fresh instance, which is what the statement defines. Default variable collections accumulate by design and are not compared as such; evaluation uses an explicit collection, and since round 4 also the default collection after the caller cleared or pruned it.",
    ref="DESIGN.md §3 C05"),
  "C09": dict(
    technique="runtime monitor: round-trip oracle (harness writer -> real CsvTokenizer -> regrouping) over exhaustive small tables and random tables x configurations x line endings",
@@ -126,7 +126,7 @@ def main():
             "evidence_file": "evidence/%s.json" % pid,
             "replay_cmd_template": "./run.sh replay {path}",
             "engine": "vcheck-race" if pid == "C19" else "vcheck",
-            "level_claimed": {"category": "exploration", "text": c["text"], "design_ref": c["ref"]},
+            "level_claimed": {"category": "exploration", "text": c["text"] + " The scopes named here are those of the first version; five rounds of seeded changes extended every check (further sub-checks, larger pools, more entry points) - the sub-checks with their rules, case counts and observed events as they are now are in the evidence file, the history in the 'Round n' notes of DESIGN.md section 3.", "design_ref": c["ref"]},
             "level_note": c["note"],
             "technique": c["technique"],
         })
